@@ -280,7 +280,7 @@ CHECKS = {
               "lattice priors are built through JokerPrior.default(sigma_v=...), uncertainties are declared in km/s or m/s "
               "independently of the velocities. Off the lattice model_rv, the observed node and the ln_likelihood deterministic are "
               "compared at random parameter points of seeded random real-valued problems with the TLC-certified floating-point "
-              "transcription of Gauss.tla (independent Kepler solver; quick 16, thorough 240; 1e-6 relative). Every off-lattice problem also calls setup_mcmc a second time on the same model for another data set: the call must be refused or the model must describe that data (C11.SecondSetupOnTheSameModelDescribesItsOwnData)."),
+              "transcription of Gauss.tla (independent Kepler solver; quick 16, thorough 240; 1e-6 relative). Every off-lattice problem also calls setup_mcmc a second time on the same model for another data set: the call must be refused or the model must describe that data (spec McmcModel, monitor McmcModelTrace: C11.SecondSetupOnTheSameModelDescribesItsOwnData)."),
         design_ref="DESIGN.md section 3 C11",
         note=("Exhaustive on the lattice only; off the lattice explored on seeded random problems. NOT decided: the prior term of the model's total log-density (pymc transforms / Jacobians); it is "
               "bound only structurally (the free variables are the prior's variables, whose densities are the declared ones)."),
